@@ -9,187 +9,4 @@ use vstd::arithmetic::div_mod::*;
 #[allow(unused_imports)]
 use core::cmp::Ordering;
 //@include inc/pow10.rs
-// =================================================================================================
-// C26  Price decimal conversion never rounds up and never silently truncates
-//      gmsol_utils::price::decimal::Decimal on the primitive types it is written on.
-// =================================================================================================
-//@const crates/utils/src/price/decimal.rs :: MAX_DECIMALS :: u8 = 20
-//@const crates/utils/src/price/decimal.rs :: MAX_DECIMAL_MULTIPLIER :: u8 = 20
-verus! {
-// ASSUMED std contract (vstd has none)
-pub assume_specification [u128::div_ceil] (a: u128, b: u128) -> (r: u128)
-    requires b != 0
-    ensures r == (a as int + b as int - 1) / (b as int);
-
-#[derive(Debug)]
-pub enum DecimalError { ExceedMaxDecimals, ExceedMaxDecimalMultiplier, Overflow }
-
-//@struct crates/utils/src/price/decimal.rs :: pub struct Decimal :: value, decimal_multiplier
-#[derive(Clone, Copy, Debug)]
-pub struct Decimal { pub value: u32, pub decimal_multiplier: u8 }
-
-/// wf(Decimal): the multiplier never exceeds MAX_DECIMAL_MULTIPLIER (established by try_from_price)
-pub open spec fn dec_wf(d: Decimal) -> bool { d.decimal_multiplier <= 20 }
-/// unit price of a decimal (20 decimals)
-pub open spec fn unit_price(d: Decimal) -> int { d.value as int * p10(d.decimal_multiplier as nat) }
-/// the stored value named by the statement: the exact price scaled to `precision` decimals of a
-/// token unit and TRUNCATED:  floor(price * 10^(precision - decimals))
-pub open spec fn value_spec(price: int, decimals: int, precision: int) -> int {
-    if precision >= decimals { price * p10((precision - decimals) as nat) } else { price / p10((decimals - precision) as nat) }
-}
-
-impl Decimal {
-    pub const MAX_DECIMALS: u8 = 20;
-    pub const MAX_DECIMAL_MULTIPLIER: u8 = 20;
-
-//@unit C26.Decimal.multiplier
-//@ file crates/utils/src/price/decimal.rs
-//@ within impl Decimal
-//@ fn multiplier
-//@ sig fn multiplier(&self) -> u128
-//@ top :: proof { lemma_p10_fits(self.decimal_multiplier as nat); }
-    pub fn multiplier(&self) -> (r: u128)
-        requires dec_wf(*self)
-        ensures r == p10(self.decimal_multiplier as nat), r >= 1
-//@body
-
-//@unit C26.Decimal.to_unit_price
-//@ file crates/utils/src/price/decimal.rs
-//@ within impl Decimal
-//@ fn to_unit_price
-//@ sig fn to_unit_price(&self) -> u128
-//@ top :: proof { lemma_p10_values(); lemma_p10_pos(self.decimal_multiplier as nat); lemma_p10_mono(self.decimal_multiplier as nat, 20); lemma_mul_upper_bound(self.value as int, u32::MAX as int, p10(self.decimal_multiplier as nat), p10(20)); }
-    pub fn to_unit_price(&self) -> (r: u128)
-        requires dec_wf(*self)
-        ensures r == unit_price(*self)
-//@body
-
-//@unit C26.Decimal.with_unit_price
-//@ file crates/utils/src/price/decimal.rs
-//@ within impl Decimal
-//@ fn with_unit_price
-//@ sig fn with_unit_price(&self, price: u128, round_up: bool) -> Option<Self>
-//@ sub price\.div\(multiplier\) => price / multiplier
-    pub fn with_unit_price(&self, price: u128, round_up: bool) -> (r: Option<Decimal>)
-        requires dec_wf(*self)
-        ensures
-            r.is_some() ==> r.unwrap().decimal_multiplier == self.decimal_multiplier,
-            round_up ==> (r.is_some() <==> (price + p10(self.decimal_multiplier as nat) - 1) / p10(self.decimal_multiplier as nat) <= u32::MAX),
-            round_up && r.is_some() ==> r.unwrap().value == (price + p10(self.decimal_multiplier as nat) - 1) / p10(self.decimal_multiplier as nat),
-            !round_up ==> (r.is_some() <==> price as int / p10(self.decimal_multiplier as nat) <= u32::MAX),
-            !round_up && r.is_some() ==> r.unwrap().value == price as int / p10(self.decimal_multiplier as nat),
-//@body
-
-//@unit C26.Decimal.decimal_multiplier_from_precision
-//@ file crates/utils/src/price/decimal.rs
-//@ within impl Decimal
-//@ fn decimal_multiplier_from_precision
-//@ sig fn decimal_multiplier_from_precision(decimals: u8, precision: u8) -> u8
-    pub const fn decimal_multiplier_from_precision(decimals: u8, precision: u8) -> (r: u8)
-        requires decimals + precision <= 20
-        ensures r == 20 - decimals - precision
-//@body
-
-//@unit C26.Decimal.try_from_price
-//@ file crates/utils/src/price/decimal.rs
-//@ within impl Decimal
-//@ fn try_from_price
-//@ sig fn try_from_price( mut price: u128, decimals: u8, token_decimals: u8, precision: u8, ) -> Result<Self, DecimalError>
-//@ before let divisor_exp = match decimals.cmp(&token_decimals) { :: let ghost price0 = price as int; proof { lemma_p10_values(); assert forall|e: nat| e <= 38 implies 1 <= #[trigger] ipow(10, e) <= u128::MAX by { lemma_p10_fits(e); } }
-//@ before let multiplier = 10u128.pow((token_decimals - decimals) as u32); :: proof { lemma_p10_fits((token_decimals - decimals) as nat); }
-//@ before let multiplier = (token_decimals << 1) + decimal_multiplier; :: proof { assert((token_decimals << 1u8) == 2u8 * token_decimals) by(bit_vector) requires token_decimals <= 20u8; lemma_try_from_price_cases(price0, price as int, decimals as int, token_decimals as int, precision as int); }
-    pub fn try_from_price(mut price: u128, decimals: u8, token_decimals: u8, precision: u8) -> (r: Result<Decimal, DecimalError>)
-        ensures
-            // decimal settings beyond the supported maximum => error
-            (token_decimals > 20 || precision > 20 || decimals > 20 || token_decimals + precision > 20) ==> r.is_err(),
-            // accepted => EXACTLY the truncated value (never rounded up, never a wrong price)
-            r.is_ok() ==> r.unwrap().value == value_spec(price as int, decimals as int, precision as int),
-            r.is_ok() ==> r.unwrap().decimal_multiplier == 20 - token_decimals - precision && dec_wf(r.unwrap()),
-            // hence: a price that cannot be represented in u32 at this precision is an error
-            value_spec(price as int, decimals as int, precision as int) > u32::MAX ==> r.is_err(),
-//@body
-}
-
-/// All arithmetic paths of `try_from_price` land on `value_spec` (d = decimals, t = token decimals,
-/// p = precision; price1 = price * 10^(t-d) when d < t, else price).
-pub proof fn lemma_try_from_price_cases(price0: int, price1: int, d: int, t: int, p: int)
-    requires
-        0 <= price0, 0 <= d <= 20, 0 <= t <= 20, 0 <= p <= 20, t + p <= 20,
-        d < t ==> price1 == price0 * p10((t - d) as nat),
-        d >= t ==> price1 == price0,
-    ensures
-        // 20 >= 2t + m  (i.e. t <= p), no divisor:            price1 * 10^(p - t)
-        (d <= t && t <= p) ==> price1 * p10((p - t) as nat) == value_spec(price0, d, p),
-        // t > p, no divisor:                                   price1 / 10^(t - p)
-        (d <= t && t > p) ==> price1 / p10((t - p) as nat) == value_spec(price0, d, p),
-        // d > t, t <= p, exp >= divisor_exp (p - t >= d - t):  price1 * 10^(p - d)
-        (d > t && t <= p && p >= d) ==> price1 * p10((p - d) as nat) == value_spec(price0, d, p),
-        // d > t, t <= p, exp < divisor_exp:                    price1 / 10^(d - p)
-        (d > t && t <= p && p < d) ==> price1 / p10((d - p) as nat) == value_spec(price0, d, p),
-        // d > t, t > p:                                        (price1 / 10^(t - p)) / 10^(d - t)
-        (d > t && t > p) ==> (price1 / p10((t - p) as nat)) / p10((d - t) as nat) == value_spec(price0, d, p),
-{
-    if d <= t && t <= p {
-        if d < t {
-            lemma_p10_add((t - d) as nat, (p - t) as nat);
-            assert(price0 * p10((t - d) as nat) * p10((p - t) as nat) == price0 * (p10((t - d) as nat) * p10((p - t) as nat))) by(nonlinear_arith);
-        }
-    }
-    if d <= t && t > p {
-        lemma_p10_pos((t - p) as nat);
-        if d < t {
-            if p >= d {
-                // price0 * 10^(t-d) / 10^(t-p) = price0 * 10^(p-d)
-                lemma_p10_add((p - d) as nat, (t - p) as nat);
-                assert(price0 * p10((t - d) as nat) == (price0 * p10((p - d) as nat)) * p10((t - p) as nat)) by(nonlinear_arith)
-                    requires p10((t - d) as nat) == p10((p - d) as nat) * p10((t - p) as nat);
-                lemma_div_multiples_vanish(price0 * p10((p - d) as nat), p10((t - p) as nat));
-            } else {
-                // price0 * 10^(t-d) / 10^(t-p) = price0 / 10^(d-p)   with t-p = (t-d) + (d-p)
-                lemma_p10_add((t - d) as nat, (d - p) as nat);
-                lemma_p10_pos((t - d) as nat); lemma_p10_pos((d - p) as nat);
-                lemma_mul_is_commutative(price0, p10((t - d) as nat));
-                lemma_truncate_middle(price0, p10((t - d) as nat), p10((d - p) as nat));
-                lemma_mul_is_commutative(p10((t - d) as nat), p10((d - p) as nat));
-                // (b*x) / (b*c) == x / c
-                lemma_div_multiples_cancel(price0, p10((t - d) as nat), p10((d - p) as nat));
-            }
-        }
-    }
-    if d > t && t > p {
-        lemma_p10_pos((t - p) as nat); lemma_p10_pos((d - t) as nat);
-        lemma_p10_add((t - p) as nat, (d - t) as nat);
-        lemma_div_denominator(price1, p10((t - p) as nat), p10((d - t) as nat));
-    }
-}
-
-/// (b*x) / (b*c) == x / c   for b, c > 0, x >= 0
-pub proof fn lemma_div_multiples_cancel(x: int, b: int, c: int)
-    requires x >= 0, b > 0, c > 0
-    ensures (b * x) / (b * c) == x / c
-{
-    lemma_truncate_middle(x, b, c);
-    lemma_mod_breakdown(x, b, c);
-    // (b*x) / (b*c): use div_denominator: (b*x)/b/c = x/c
-    lemma_div_denominator(b * x, b, c);
-    lemma_div_multiples_vanish(x, b);
-    lemma_mul_is_commutative(b, x);
-}
-
-/// "never rounds up and is off by less than one precision step":
-/// for v = value_spec: p >= d: exact;  p < d:  v * 10^(d-p) <= price < (v+1) * 10^(d-p)
-pub proof fn lemma_truncation_bounds(price: int, d: int, p: int)
-    requires price >= 0, 0 <= d <= 20, 0 <= p <= 20
-    ensures
-        p < d ==> value_spec(price, d, p) * p10((d - p) as nat) <= price < (value_spec(price, d, p) + 1) * p10((d - p) as nat),
-{
-    if p < d {
-        let k = p10((d - p) as nat);
-        lemma_p10_pos((d - p) as nat);
-        lemma_fundamental_div_mod(price, k);
-        lemma_mod_bound(price, k);
-        lemma_mul_is_commutative(price / k, k);
-        assert((price / k + 1) * k == (price / k) * k + k) by(nonlinear_arith);
-    }
-}
-} // verus!
+//@include inc/decimal.rs
